@@ -77,7 +77,7 @@ def _unicode_search(root, repo, args, timeout=900):
 
 def run_searcher(root, repo, name, pid, obligations, seed):
     if name == "unicode":
-        hs = [o.split("::")[-1] for o in obligations]
+        hs = [o.split("::")[-1].replace("_sweep", "") for o in obligations]
         if "names_resolve_and_agree" in hs:
             p = _unicode_search(root, repo, ["--names"])
         else:
